@@ -350,8 +350,74 @@ def run_machine(machine_cls, max_examples, steps, shard=0):
     )
 
 
+# --------------------------------------------------------------------------- shrinking
+def _is_perm_list(x):
+    return isinstance(x, list) and len(x) > 0 and all(type(v) is int for v in x) and sorted(x) == list(range(len(x)))
+
+
+def _std(seq):
+    order = sorted(range(len(seq)), key=lambda i: (seq[i], i))
+    res = [0] * len(seq)
+    for r, i in enumerate(order):
+        res[i] = r
+    return res
+
+
+def _candidates(obj):
+    """Structurally smaller variants of a JSON case (perm-aware: deleting a point of a
+    permutation re-standardises it)."""
+    if isinstance(obj, list):
+        if _is_perm_list(obj):
+            for i in range(len(obj)):
+                yield _std(obj[:i] + obj[i + 1 :])
+            return
+        for i in range(len(obj)):
+            yield obj[:i] + obj[i + 1 :]
+        for i, item in enumerate(obj):
+            for sub in _candidates(item):
+                yield obj[:i] + [sub] + obj[i + 1 :]
+    elif isinstance(obj, dict):
+        for key in sorted(obj):
+            for sub in _candidates(obj[key]):
+                new = dict(obj)
+                new[key] = sub
+                yield new
+    elif type(obj) is int and obj > 0:
+        yield 0
+        if obj > 1:
+            yield obj // 2
+            yield obj - 1
+
+
+def shrink_case(fn, case, kind, budget_s=20.0):
+    """Greedy delta-style reduction of a failing case: accept a smaller variant only if the
+    check function still reports a violation of the same kind on it (variants on which the
+    check raises, or fails differently, are discarded, so an invalid variant can never become
+    the reproduction)."""
+    t_end = time.time() + budget_s
+    case = json.loads(jdump(case))
+    improved = True
+    steps = 0
+    while improved and time.time() < t_end:
+        improved = False
+        for cand in _candidates(case):
+            if time.time() > t_end:
+                break
+            if len(jdump(cand)) >= len(jdump(case)):
+                continue
+            try:
+                out = fn(cand)
+            except BaseException:  # pylint: disable=broad-except
+                continue
+            if out is not None and out.status == "bad" and out.kind == kind:
+                case, improved = cand, True
+                steps += 1
+                break
+    return case, steps
+
+
 # --------------------------------------------------------------------------- reporting
-def finish(acc, tier, level, rule, t0, assumptions=(), extra_cov=None, exhaustive=False, trusted_base=()):
+def finish(acc, tier, level, rule, t0, assumptions=(), extra_cov=None, exhaustive=False, trusted_base=(), checks=None):
     """Write replays + evidence, print protocol lines, return exit code."""
     prop = acc.prop
     os.makedirs(os.path.join(OUT, "evidence"), exist_ok=True)
@@ -361,8 +427,17 @@ def finish(acc, tier, level, rule, t0, assumptions=(), extra_cov=None, exhaustiv
     for (check, kind), (size, case, detail) in sorted(acc.buckets.items(), key=lambda kv: kv[0]):
         nviol += 1
         os.makedirs(os.path.join(OUT, "replays"), exist_ok=True)
+        shrunk_steps = 0
+        if checks and check in checks and not kind.startswith("lib_exception") and os.environ.get("PV_NO_SHRINK") != "1":
+            try:
+                small, shrunk_steps = shrink_case(checks[check], case, kind, 15.0 if tier == "quick" else 120.0)
+                if shrunk_steps:
+                    out = checks[check](small)
+                    case, detail = small, out.detail
+            except BaseException:  # pylint: disable=broad-except
+                pass
         payload = {"property": prop, "check": check, "kind": kind, "case": case, "detail": detail,
-                   "count_in_run": acc.bucket_counts[(check, kind)]}
+                   "count_in_run": acc.bucket_counts[(check, kind)], "shrink_steps": shrunk_steps}
         digest = hashlib.blake2b(jdump(payload["case"]).encode(), digest_size=5).hexdigest()
         path = os.path.join(OUT, "replays", f"{prop}-{check}-{kind}-{digest}.json".replace("/", "_"))
         with open(path, "w") as fh:
